@@ -145,14 +145,18 @@ NEWDIMS = ["p", "q", "r", "s"]
 def _construct():
     def gen(w, rng):
         spec = V.gen_array_spec(rng, w.cfg)
-        forms = [0] + rng.sample([1, 2, 3, 4], 1)
+        forms = [0] + rng.sample([1, 2, 3, 4, 5], 1)
         return {"op": "construct", "spec": spec, "forms": forms, "out": out(w)}
 
     def run(w, s):
         a = V.build_array(s["spec"], s["forms"][0])
         if "C05" in w.props:
             for f in s["forms"][1:]:
-                b = V.build_array(s["spec"], f)
+                try:
+                    b = V.build_array(s["spec"], f)
+                except Exception as e:
+                    raise Violation("C05", "ctor_forms", "constructor form %d raises %s: %s while form %d builds the array" % (
+                        f, type(e).__name__, str(e)[:120], s["forms"][0]))
                 d = V.diff_arrays(a, b)
                 if d:
                     raise Violation("C05", "ctor_forms", "constructor forms %r disagree: %s" % (s["forms"], d))
@@ -182,6 +186,7 @@ def _construct_helper():
             a = da.nans(axes=pairs); exp = None
         elif which == "empty":
             a = da.empty(axes=pairs); exp = "any"
+            a.values[...] = 0.0  # uninitialised memory would make the run non-replayable
         elif which == "zeros_like":
             a = da.zeros_like(ref); exp = 0.0
         elif which == "ones_like":
